@@ -204,6 +204,8 @@ def build_payload(spec):
         return spec["value"]
     if k == "nd":
         return build_nd(spec)
+    if k == "fbits":
+        return build_fbits(spec)
     return build_tensor(spec)
 
 
@@ -212,6 +214,8 @@ def leaf_class(spec) -> str:
     k = spec["kind"]
     if k == "nd":
         return "nd:" + ("0d" if not spec["shape"] else spec.get("layout", "C"))
+    if k == "fbits":
+        return f"fbits:{spec['lib']}:{spec['dtype']}"
     c = k
     if k == "coo" and spec.get("coalesced", True) is not True:
         c += ":uncoalesced"
@@ -253,6 +257,130 @@ def failing_leaves(spec, obj, path="model"):
                 shm.unlink()
 
 
+# ---- floating-point leaves given bit by bit, and arithmetic on them ------------------------------------------
+# {"kind": "fbits", "lib": "np" | "torch", "dtype": "float32" | "float64", "bits": [...]}: a vector whose elements are
+# the given bit patterns (subnormal numbers, the largest finite numbers, signed zeros, NaNs with a payload ...).
+
+UINT = {"float64": "uint64", "float32": "uint32"}
+
+
+def build_fbits(spec):
+    import numpy as np
+    a = np.array(spec["bits"], dtype=UINT[spec["dtype"]]).view(spec["dtype"]).copy()
+    if spec["lib"] == "torch":
+        import torch
+        return torch.from_numpy(a).clone()
+    return a
+
+
+NUM_KEY = {("np", "float64"): "a64", ("np", "float32"): "a32", ("torch", "float64"): "t64", ("torch", "float32"): "t32", ("py", "float64"): "a64"}
+
+
+def _from_bits(bits, dtype):
+    import numpy as np
+    return np.array(bits, dtype=UINT[dtype]).view(dtype).copy()
+
+
+def _to_bits(v):
+    "bit patterns of a NumPy array / scalar, a tensor, or a list of Python floats; with the dtype they have"
+    import numpy as np
+    if isinstance(v, (list, float)):
+        v = np.array(v, dtype="float64")
+    elif not isinstance(v, (np.ndarray, np.generic)):
+        v = v.detach().contiguous().numpy()
+    v = np.ascontiguousarray(v).reshape(-1)
+    return [str(v.dtype), [int(b) for b in v.view(UINT[str(v.dtype)]).tolist()]]
+
+
+def calc(model, c):
+    """The value of one small floating-point computation, bit by bit.
+
+    c = {"lib": "py" | "np" | "torch", "dtype", "src": "model" | "task", "xs": bits (src task), "sel": indices (src model),
+         "steps": [[op, operand bits or None], ...]}.  The operand vector comes from the model (model["num"][...]) or from
+    the task; each step is applied to the value of the one before.  Every operation is either correctly rounded
+    element by element (mul, add, sub, div, sqrt, cast32) or -- sum, dot -- generated over values whose exact sum is
+    representable (integer multiples of one power of two), so the value does not depend on the order of the additions:
+    it is a function of (model, task) alone unless the numeric environment of the process differs."""
+    import math
+    import struct
+
+    import numpy as np
+    lib, dt = c["lib"], c["dtype"]
+    try:
+        if c["src"] == "model":
+            a = model["num"][NUM_KEY[lib, dt]]
+            a = a[list(c["sel"])]
+        else:
+            a = _from_bits(c["xs"], dt)
+            if lib == "torch":
+                import torch
+                a = torch.from_numpy(a)
+        if lib == "py":
+            v = [float(x) for x in a.tolist()]
+            for op, cb in c["steps"]:
+                k = None if cb is None else [float(x) for x in _from_bits(cb, "float64").tolist()]
+                vec = isinstance(v, list)
+                xs = v if vec else [v]
+                ks = None if k is None else (k if len(k) == len(xs) else k * len(xs))
+                if op == "mul":
+                    r = [x * y for x, y in zip(xs, ks)]
+                elif op == "add":
+                    r = [x + y for x, y in zip(xs, ks)]
+                elif op == "sub":
+                    r = [x - y for x, y in zip(xs, ks)]
+                elif op == "div":
+                    r = [x / y for x, y in zip(xs, ks)]
+                elif op == "sqrt":
+                    r = [math.sqrt(x) if x >= 0 else math.nan for x in xs]
+                elif op == "cast32":
+                    r = [struct.unpack("f", struct.pack("f", x))[0] for x in xs]
+                elif op == "sum":
+                    r, vec = sum(xs, 0.0), False
+                elif op == "dot":
+                    r, vec = sum((x * y for x, y in zip(xs, ks)), 0.0), False
+                else:
+                    raise ValueError(op)
+                v = r if vec or not isinstance(r, list) else r[0]
+            return _to_bits(v)
+        with np.errstate(all="ignore"):
+            v = a
+            for op, cb in c["steps"]:
+                k = None
+                if cb is not None:
+                    kdt = str(v.dtype).replace("torch.", "")
+                    k = _from_bits(cb, kdt)
+                    if lib == "torch":
+                        import torch
+                        k = torch.from_numpy(k)
+                    if len(cb) == 1 and op != "dot":
+                        k = k[0]
+                if op == "mul":
+                    v = v * k
+                elif op == "add":
+                    v = v + k
+                elif op == "sub":
+                    v = v - k
+                elif op == "div":
+                    v = v / k
+                elif op == "sqrt":
+                    v = np.sqrt(v) if lib == "np" else v.sqrt()
+                elif op == "cast32":
+                    v = v.astype("float32") if lib == "np" else v.float()
+                elif op == "sum":
+                    v = v.sum()
+                elif op == "dot":
+                    v = np.dot(v, k) if lib == "np" else v.dot(k)
+                else:
+                    raise ValueError(op)
+            return _to_bits(v)
+    except Exception as e:                      # ZeroDivisionError / OverflowError of Python floats: part of the value
+        return ["error", type(e).__name__]
+
+
+def calcs_of(model, arg):
+    return [calc(model, c) for c in arg.get("calc") or []]
+
+
 class TaskFailure(Exception):
     pass
 
@@ -275,9 +403,10 @@ def task(model, arg):
         raise exc(f"task {arg['id']} failed")
     if arg.get("kill"):
         os._exit(3)                      # the worker process dies without reporting
-    return {"id": arg["id"], "x2": arg["x"] * 2 + model["k"], "digest": digest(model), "pid": os.getpid(), "t0": t0, "t1": time.time()}
+    return {"id": arg["id"], "x2": arg["x"] * 2 + model["k"], "digest": digest(model), "num": calcs_of(model, arg), "pid": os.getpid(), "t0": t0,
+            "t1": time.time()}
 
 
 def value_of(model, arg, model_digest):
     "the result fields that do not depend on where/when the task ran"
-    return {"id": arg["id"], "x2": arg["x"] * 2 + model["k"], "digest": model_digest}
+    return {"id": arg["id"], "x2": arg["x"] * 2 + model["k"], "digest": model_digest, "num": calcs_of(model, arg)}
